@@ -694,3 +694,37 @@ def extend_history(base_text, steps):
                 info["op"] = "q"
                 out.append(info)
     return {"steps": out}
+
+
+# ------------------------------------------------------------------ C13 / C33 deterministic queries
+def det_queries(cases):
+    """cases: [{'id', 'text', 'query'}] -> ordered answers (full instantiated query terms) of engine.query"""
+    from problog.program import PrologString
+    from problog.engine import DefaultEngine
+    from problog.logic import Term
+    from problog.errors import ProbLogError
+    from . import terms as T
+    from .pl import err_info
+    out = []
+    for c in cases:
+        r = {"id": c["id"]}
+        try:
+            eng = DefaultEngine()
+            db = eng.prepare(PrologString(c["text"]))
+            q = Term.from_string(c["query"])
+            try:
+                res = eng.query(db, q)
+                vmap = {}
+                r["ok"] = 1
+                r["ans"] = [T.from_problog(q.with_args(*a), {}) for a in res]
+            except ProbLogError as e:
+                r["ok"] = 2
+                r["ans"] = []
+                r["err"] = type(e).__name__
+        except Exception as e:
+            info = err_info(e)
+            r["crash"] = "%s: %s" % (info["error"], info["msg"])
+            r["error"] = info["error"]
+            r["site"] = info["site"]
+        out.append(r)
+    return {"results": out}
